@@ -85,6 +85,11 @@ def failing(name, rng=None):
         s['faults'] = [{'conn': 'probe', 'at': 'kexreply', 'op': 'patch', 'offset': 5, 'hex': '03'}]
     elif name == 'probe-malformed-reply':
         s['faults'] = [{'conn': 'probe', 'at': 'kexreply', 'op': 'replace', 'hex': wire.packet(wire.kex_reply(31, wire.string('ssh-ed25519'))).hex()}]
+    elif name == 'all-padding':
+        # block-aligned, but the padding takes the whole packet: there is no message type byte
+        s['faults'] = [{'at': 'kexinit', 'op': 'replace', 'hex': (wire.u32(12) + b'\x0b' + bytes(11)).hex()}]
+    elif name == 'probe-all-padding':
+        s['faults'] = [{'conn': 'probe', 'at': 'kexreply', 'op': 'replace', 'hex': (wire.u32(12) + b'\x0b' + bytes(11)).hex()}]
     elif name == 'wrong-first-packet':
         s['faults'] = [{'at': 'kexinit', 'op': 'patch', 'offset': 5, 'hex': '15'}]
     elif name == 'garbage-banner':
